@@ -16,7 +16,7 @@ import json, os, re, copy
 from vlib import Broken, read_ndjson, write_ndjson, validate_history_trace, parallel, tlc_vh_lines, split_histories
 
 SPEC = "x02_cache_transform"
-LEVEL = "engine"
+LEVEL = "model_checking"
 ALLDEV_T = ["query_dropped", "body_delete_ignored", "body_obf_dot_ignored", "host_suffix"]
 UNIT = 131072            # one model size unit (MiB = 8 units)
 
